@@ -138,7 +138,7 @@ def explore_inverse_power(task):
         queries += harness.path_queries(path, prefix="%s/p%d/" % (tag, npaths), group_prefix="ipp/", timeout_s=120,
                                         extra_info=info)
     return {"paths": npaths, "queries": queries, "part": "inverse_power", "explore_s": time.time() - t0,
-            "inconclusive": (["%s: %d unknown feasibility answers" % (tag, ex.n_unknown)] if ex.n_unknown else [])}
+            "undecided_feasibility": ex.n_unknown}
 
 
 # ------------------------------------------------------------------------------------------------ hard core
@@ -210,7 +210,7 @@ def explore_hard(task):
         queries += harness.path_queries(path, prefix="%s/p%d/" % (tag, npaths), group_prefix="hard/", timeout_s=120,
                                         extra_info=info)
     return {"paths": npaths, "queries": queries, "part": "hard",
-            "inconclusive": (["%s: %d unknown feasibility answers" % (tag, ex.n_unknown)] if ex.n_unknown else [])}
+            "undecided_feasibility": ex.n_unknown}
 
 
 # ------------------------------------------------------------------------------------------------ Coulomb bound (C)
